@@ -12,9 +12,16 @@ def run(ctx):
     fc.entry_race(ctx, rounds=3 if th else 2)
     # break / Close scenarios enumerated by TLC (FaultGen.tla), judged by FaultTrace.tla
     cases = fc.gen_fault_cases(ctx)
-    faults = ('cutall', 'cutnow', 'execcut', 'midreply', 'pingtimeout', 'close', 'dedclose', 'dialfail')
-    sel = fc.select_fault_cases(cases, 1200 if th else 150, ctx.seed, faults=faults,
+    faults = ('cutall', 'cutnow', 'execcut', 'midreply', 'pingtimeout', 'close', 'dedclose', 'dialfail', 'dedbreak')
+    plain = [c for c in cases if not fc._fault_opts(c)]
+    sel = fc.select_fault_cases(plain, 1200 if th else 130, ctx.seed, faults=faults,
                                 always=lambda c: c['fault'] in ('dedclose', 'dialfail'))
+    # further ingredients: an unsolicited unsubscribe push before the break (the reader holds a call it has taken off the queue),
+    # steady new traffic on a silently dead connection (the keep-alive ping must still fire), a dedicated client whose command
+    # connection breaks while its Receive waits (RESP2: on the wire's second connection) and which is then released
+    extra = [c for c in cases if fc._fault_opts(c) or c['fault'] == 'dedbreak']
+    small = lambda c: c['fault'] == 'dedbreak' or (len(c['pend']) == 1 and c['pipe'] and not c['warm'])
+    sel += fc.select_fault_cases(extra, 400 if th else 44, ctx.seed + 3, always=small)
     verdicts = fc.run_fault_scenarios(ctx, sel, 'ring')
     if th:
         verdicts += fc.run_fault_scenarios(ctx, fc.select_fault_cases(cases, 400, ctx.seed + 7, faults=faults), 'flowbuffer')
@@ -26,4 +33,7 @@ def run(ctx):
         'a call that has not returned 12 s after its connection broke / Close() returned is a hang (the alternative is "never"); '
         'the scenario is run a second time before it is reported',
         'Pipe.tla: single-command and two-command calls, abstract FIFO queue (ring/flowbuffer internals are C02), no Pub/Sub state',
+        'a silent server (fault pingtimeout) keeps every reply back; a connection on which a reply is kept back counts as dead from then on: '
+        'every call pending on it must return (keep-alive ping, or the time-out of a call on the synchronous path), also while new '
+        'short-lived calls keep arriving',
         'Close() with a blocking command pending on a pool connection is only required to return when the server answers (statement of C04)']
